@@ -40,6 +40,13 @@ def c01(r):
         if b not in DOC_GRAPH.get(a, set()):
             out.append(F(f'c01-edge:{a}->{b}', 'state changes follow the documented lifecycle graph', e))
             break
+    # a terminal state that was ENTERED (state event, i.e. also in the middle of a callback) is the last one entered and is the
+    # state the process reports at the end (the event callbacks are cleared at close: the final label is read from the process)
+    for idx, lab in enumerate(e):
+        if lab in TERMINAL and (idx != len(e) - 1 or r.p.state.value != lab):
+            out.append(F('c01-terminal-changed', 'terminal states are final',
+                         dict(entered=e, final=r.p.state.value, ops=r.ops)))
+            return out
     first = None
     for i, s in enumerate(r.snapshots):
         if s is None:
@@ -169,8 +176,14 @@ def c04(r):
             if label != 'killed' and true_now:
                 out.append(F('c04-kill-result', 'kill() resolves to True exactly when the process ended KILLED',
                              dict(final=label, result=True, ops=r.ops)))
+    for res, _msg, _idx in getattr(r, 'term_kills', []):
+        true_now = (res is True) or (asyncio.isfuture(res) and res.done() and not res.cancelled()
+                                     and res.exception() is None and res.result() is True)
+        if true_now and label != 'killed':
+            out.append(F('c04-kill-result', 'kill() resolves to True exactly when the process ended KILLED',
+                         dict(final=label, result=True, issued='inside the transition into a terminal state', ops=r.ops)))
     if label == 'killed':
-        texts = {k[1] for k in live_kills}
+        texts = {k[1] for k in live_kills} | {k[1] for k in getattr(r, 'term_kills', [])}
         if live_cancels:
             texts.add(CANCEL_TEXT)
         if any(oc[0] == 'kill' for _, oc in r.prog['fns'].values()):
